@@ -55,6 +55,13 @@ def main(tier: str, seed: int, opts) -> int:
     rep = Reporter(PROP)
     hashseeds = HASHSEEDS[: cfg["hashseeds"]]
     pool_files = ampworld.make_pool(run_seed(seed, PROP, tier, 0, "pool"), cfg["files"], {"max_top": 2, "max_alt": 2, "with_cartesian": True, "collisions": True, "with_unconvertible": True})
+    # ... and the twin of its richest convertible file: the same decay lines under a differently ordered EventType line
+    plain = [f for f in pool_files if not ({"cartesian_option", "unimplemented_lineshape"} & set(f.get("tags") or []))]
+    if plain:
+        src = max(plain, key=lambda f: len(f.get("resonances", [])))
+        twin = ampworld.permuted_twin(src, random.Random(run_seed(seed, PROP, tier, 0, "twin")))
+        if twin["text"] != src["text"]:
+            pool_files.append({**twin, "twin_of": src["name"]})
     if tier == "thorough":
         with open(ampworld.SHIPPED_MODEL, encoding="utf-8") as f:
             pool_files.append({"name": "DtoKpipipi_v2.txt", "text": f.read(), "tags": ["shipped_model"], "resonances": ["x"] * 30})
